@@ -1105,7 +1105,8 @@ std::string MathLib::add(const std::string & first, const std::string & second)
     return (value(first) + value(second)).str();
 #else
     if (MathLib::isInt(first) && MathLib::isInt(second)) {
-        return MathLib::toString(toBigNumber(first) + toBigNumber(second)) + intsuffix(first, second);
+        // wrap around: signed overflow is undefined behaviour
+        return MathLib::toString(static_cast<bigint>(static_cast<biguint>(toBigNumber(first)) + static_cast<biguint>(toBigNumber(second)))) + intsuffix(first, second);
     }
 
     double d1 = toDoubleNumber(first);
@@ -1127,7 +1128,8 @@ std::string MathLib::subtract(const std::string &first, const std::string &secon
     return (value(first) - value(second)).str();
 #else
     if (MathLib::isInt(first) && MathLib::isInt(second)) {
-        return MathLib::toString(toBigNumber(first) - toBigNumber(second)) + intsuffix(first, second);
+        // wrap around: signed overflow is undefined behaviour
+        return MathLib::toString(static_cast<bigint>(static_cast<biguint>(toBigNumber(first)) - static_cast<biguint>(toBigNumber(second)))) + intsuffix(first, second);
     }
 
     if (first == second)
@@ -1175,7 +1177,8 @@ std::string MathLib::multiply(const std::string &first, const std::string &secon
     return (value(first) * value(second)).str();
 #else
     if (MathLib::isInt(first) && MathLib::isInt(second)) {
-        return MathLib::toString(toBigNumber(first) * toBigNumber(second)) + intsuffix(first, second);
+        // wrap around: signed overflow is undefined behaviour
+        return MathLib::toString(static_cast<bigint>(static_cast<biguint>(toBigNumber(first)) * static_cast<biguint>(toBigNumber(second)))) + intsuffix(first, second);
     }
     return toString(toDoubleNumber(first) * toDoubleNumber(second));
 #endif
